@@ -358,6 +358,14 @@ impl Position {
     }
 }
 
+/// Verification hooks (compiled only with `--cfg flounder_verif`)
+#[cfg(flounder_verif)]
+impl Position {
+    pub fn verif_from_raw(pieces: [Bitboard; PIECE_COUNT], colors: [Bitboard; COLOR_COUNT]) -> Self {
+        Self { pieces, colors }
+    }
+}
+
 #[derive(Copy, Clone)]
 pub struct Castle {
     white_king: bool,
